@@ -157,7 +157,7 @@ pub fn histogram(data: &[u8], known: &[&str]) -> Option<Found> {
                     _ => value(&mut u, 2)?,
                 });
             }
-            run("C06", &c06::BinLookup, &c06::Lookup { imp, len, const_width: None, edges, samples }, known)
+            run("C06", &c06::BinLookup, &c06::Lookup { imp, len, const_width: None, edges, resets: if infs & 4 == 4 { vec![samples.len() / 2] } else { vec![] }, samples }, known)
         }
         _ => {
             let mut ea = Vec::new();
